@@ -133,6 +133,9 @@ pub mod infix_filter {
     //@ item src/writers/file_log_writer/infix_filter.rs enum InfixFilter
 }
 
+//@ defaults rule R3 *
+//@ defaults rule R1 *
+//@ defaults rule R1b *
 pub mod state {
     use super::*;
     use super::config::{FileLogWriterConfig, RotationConfig};
@@ -554,7 +557,6 @@ pub mod state {
     //@ fn src/writers/file_log_writer/state.rs impl State / fn reopen_outputfile
     //@   ret r
     //@   props C18,C14
-    //@   rule R1b 3
     //@   ens[reopen.post.frame] final(self).reopen_frame(old(self))
     //@   ens[reopen.post.initial] !old(self).active() ==> r is Ok && *final(self) == *old(self)
     //@   ens[reopen.post.ok] old(self).active() && r is Ok ==> final(self).w() == fresh_wview()
@@ -597,8 +599,6 @@ pub mod state {
     //@ fn src/writers/file_log_writer/state.rs fn open_log_file
     //@   ret r
     //@   props C06,C15,C16,C01,C14
-    //@   rule R1 2
-    //@   rule R1b 2
     //@   ens[open_log_file.post.path] r is Ok ==> pathbuf_view(&r->Ok_0.1) == config.file_spec.path_spec(ostr(o_infix))
     //@   ens[open_log_file.post.fresh] r is Ok ==> r->Ok_0.0@ == fresh_wview()
     //@   ens[open_log_file.post.src] r is Ok ==> r->Ok_0.0.src() == src_for(config, ostr(o_infix))
